@@ -17,7 +17,7 @@ import (
 
 func init() {
 	Register(&Scenario{
-		Name: "webseed", Knobs: true, Props: []string{"C14"}, CrashTo: "C14",
+		Name: "webseed", Knobs: true, Props: []string{"C14"}, CrashTo: "C14", Also: map[string]int{"C09": 1}, // C09: in-flight counts of web-seed fetches (the release oracle)
 		Horizon: 6 * time.Hour, MaxSteps: 2000000, Weight: 1, Main: webseedMain,
 	})
 }
@@ -303,6 +303,7 @@ func webseedMain(rc *RunCtx) {
 			for c := range before {
 				if after[c] != before[c] {
 					rc.Fail("C14", "release", "", "after the fetch of piece %d [%d, %d) ended, block %d is counted %d times in flight (before: %d)", i, off, off+length, c, after[c], before[c])
+					rc.Fail("C09", "inflight", "web-seed-fetch", "after the web-seed fetch of piece %d [%d, %d) ended, block %d is counted %d times in flight (before: %d)", i, off, off+length, c, after[c], before[c])
 					break
 				}
 			}
@@ -424,6 +425,7 @@ func webseedMain(rc *RunCtx) {
 			for c, n := range t.SimInFlight() {
 				if n != 0 {
 					rc.Fail("C14", "release", "system", "no fetch is running and no peer is connected, but block %d is counted %d times in flight", c, n)
+					rc.Fail("C09", "inflight", "web-seed-system", "no web-seed fetch is running and no peer is connected, but block %d is counted %d times in flight", c, n)
 					break
 				}
 			}
